@@ -111,7 +111,9 @@ Inductive ty : Type :=
 | TSet (k : ty)                   (* BTreeSet *)
 | TBigUint
 | TWrap (c vl : bool) (t : ty)    (* Compressed/Uncompressed x Checked/Unchecked *)
-| TStruct (t : ty).               (* #[derive(CanonicalSerialize, CanonicalDeserialize)] struct; t = its fields as a tuple *)
+| TStruct (t : ty)                (* #[derive(CanonicalSerialize, CanonicalDeserialize)] struct; t = its fields as a tuple *)
+| TLeaf (w : nat) (k : Z).        (* harness leaf with a hand-written Valid impl: a w-byte unsigned integer whose
+                                     validity predicate is [leaf_ok k] (k = 0: even, e.g. Even32(u32); k = 1: < 200, Lt200(u8)) *)
 (* Rc, Arc, Cow, &T, &mut T are transparent: same descriptor as T *)
 
 Inductive value : Type :=
@@ -121,6 +123,10 @@ Inductive value : Type :=
 | VNone
 | VSome (v : value)
 | VList (l : list value).         (* arrays, sequences, sets, strings (bytes), maps (list of VPair key value) *)
+
+(* the validity predicates of the hand-written leaves *)
+Definition leaf_ok (k z : Z) : bool :=
+  if k =? 0 then Z.even z else if k =? 1 then z <? 200 else true.
 
 Definition zsum (l : list Z) : Z := fold_right Z.add 0 l.
 Definition zlen {A} (l : list A) : Z := Z.of_nat (length l).
@@ -170,6 +176,7 @@ Fixpoint enc (c : bool) (t : ty) (x : value) {struct t} : list Z :=
                 end
   | TWrap c' _ t' => enc c' t' x
   | TStruct t' => enc c t' x
+  | TLeaf w _ => match x with VInt z => le_bytes w z | _ => [] end
   end.
 
 (* ---------- serialized_size ---------- *)
@@ -197,6 +204,7 @@ Fixpoint size (c : bool) (t : ty) (x : value) {struct t} : Z :=
   | TBigUint => match x with VInt z => 8 + zsum (map (fun _ => 1) (to_bytes_le z)) | _ => 0 end
   | TWrap c' _ t' => size c' t' x
   | TStruct t' => size c t' x
+  | TLeaf w _ => Z.of_nat w
   end.
 
 (* ---------- Valid::check ---------- *)
@@ -215,8 +223,14 @@ Fixpoint check (t : ty) (x : value) {struct t} : bool :=
                 end
   | TWrap _ _ t' => check t' x
   | TStruct t' => check t' x
+  | TLeaf _ k => match x with VInt z => leaf_ok k z | _ => true end
   | _ => true
   end.
+
+(* the validity predicate of a type: structural (a container / struct is valid iff all its components are),
+   non-trivial only at the leaves TEven / TLeaf.  It IS [check]: Valid::check of every impl in impls.rs,
+   serde.rs and the derive expansion is the conjunction over the components. *)
+Definition valid : ty -> value -> bool := check.
 
 (* ---------- Ord of key types (BTreeMap / BTreeSet) ---------- *)
 Section ListCmp.
@@ -235,7 +249,7 @@ Definition int_cmp (x y : value) : comparison :=
 
 Fixpoint kcmp (t : ty) (x y : value) {struct t} : comparison :=
   match t with
-  | TUInt _ | TSInt _ | TBool | TEven | TModal | TBigUint => int_cmp x y
+  | TUInt _ | TSInt _ | TBool | TEven | TModal | TBigUint | TLeaf _ _ => int_cmp x y
   | TUnit => Eq
   | TOption t' => match x, y with
                   | VNone, VNone => Eq
@@ -377,6 +391,8 @@ Fixpoint dec (c vl : bool) (t : ty) (bs : list Z) {struct t} : outcome (value * 
   | TBigUint => bind (dec_len_seq dec_u8 bs) (fun lr => Ok (VInt (le_val (fst lr)), snd lr))
   | TWrap c' vl' t' => dec c' vl' t' bs
   | TStruct t' => dec c vl t' bs
+  | TLeaf w k => bind (read_uint w bs) (fun ur =>
+                   if vl && negb (leaf_ok k (fst ur)) then Err EINVALID else Ok (VInt (fst ur), snd ur))
   end.
 
 (* ---------- side conditions used by the theorems ---------- *)
@@ -390,6 +406,7 @@ Fixpoint zst (t : ty) : bool :=
   | TArray n t' => Nat.eqb n 0 || zst t'
   | TWrap _ _ t' => zst t'
   | TStruct t' => zst t'
+  | TLeaf w _ => Nat.eqb w 0
   | _ => false
   end.
 
@@ -445,6 +462,7 @@ Fixpoint wt (t : ty) (x : value) {struct t} : Prop :=
   | TBigUint => match x with VInt z => 0 <= z /\ nbytes z < W64 | _ => False end
   | TWrap _ _ t' => wt t' x
   | TStruct t' => wt t' x
+  | TLeaf w _ => match x with VInt z => 0 <= z < P8 w | _ => False end
   end.
 
 (* the derive macros recurse through tuple *syntax* (impl_serialize_field / impl_valid_field /
@@ -454,4 +472,35 @@ Fixpoint leaves (t : ty) (x : value) {struct t} : list (ty * value) :=
   | TUnit => []
   | TPair a b => match x with VPair y z => leaves a y ++ leaves b z | _ => [] end
   | _ => [(t, x)]
+  end.
+
+(* ---------- validation (Validate::Yes vs Validate::No) ---------- *)
+(* every value of the type is valid and the decoder ignores `validate`: no TEven / TLeaf inside *)
+Fixpoint vtriv (t : ty) : bool :=
+  match t with
+  | TEven | TLeaf _ _ => false
+  | TOption t' | TArray _ t' | TSeq t' | TSet t' | TWrap _ _ t' | TStruct t' => vtriv t'
+  | TPair a b | TMap a b => vtriv a && vtriv b
+  | _ => true
+  end.
+
+(* no *Unchecked wrapper (which pins Validate::No whatever the caller asks) around a type with invalid values *)
+Fixpoint checked (t : ty) : bool :=
+  match t with
+  | TOption t' | TArray _ t' | TSeq t' | TSet t' | TStruct t' => checked t'
+  | TPair a b | TMap a b => checked a && checked b
+  | TWrap _ vl' t' => if vl' then checked t' else vtriv t'
+  | _ => true
+  end.
+
+(* [checked], and ordered maps / sets hold only trivially valid entries (collect() drops an entry whose key is
+   repeated later in the input, so "the decoded map is valid" and "every decoded entry was valid" differ there) *)
+Fixpoint exact_ty (t : ty) : bool :=
+  match t with
+  | TOption t' | TArray _ t' | TSeq t' | TStruct t' => exact_ty t'
+  | TPair a b => exact_ty a && exact_ty b
+  | TMap a b => vtriv a && vtriv b
+  | TSet a => vtriv a
+  | TWrap _ vl' t' => if vl' then exact_ty t' else vtriv t'
+  | _ => true
   end.
